@@ -83,6 +83,24 @@ func randomOptions(r *Rng) ([]cfgpkg.Option, string) {
 		k := ks[r.Intn(len(ks))]
 		add("OrderAttrs32By("+k+")", cfgpkg.WithOrderAttrs32By(cfgpkg.OrderAttrs32ByVariants[k]))
 	}
+	if r.Chance(25) {
+		// the diagnostic options (statistics, record dumps) are producer options like the others
+		for _, d := range []struct {
+			name string
+			opt  cfgpkg.Option
+		}{{"WithSchemaStats", cfgpkg.WithSchemaStats()}, {"WithSchemaUpdates", cfgpkg.WithSchemaUpdates()}, {"WithRecordStats", cfgpkg.WithRecordStats()},
+			{"WithProducerStats", cfgpkg.WithProducerStats()}, {"WithCompressionRatioStats", cfgpkg.WithCompressionRatioStats()}} {
+			if r.Bool() {
+				add(d.name, d.opt)
+			}
+		}
+		if r.Bool() {
+			add("WithRecordStats+WithDumpRecordRows", cfgpkg.WithRecordStats())
+			for _, pt := range []string{"SPANS", "LOGS", "UNIVARIATE_METRICS", "SPAN_ATTRS", "LOG_ATTRS", "RESOURCE_ATTRS", "SPAN_EVENTS", "NUMBER_DATA_POINTS"} {
+				options = append(options, cfgpkg.WithDumpRecordRows(pt, 1+r.Intn(3)))
+			}
+		}
+	}
 	if len(names) == 0 {
 		return nil, "default"
 	}
